@@ -148,6 +148,10 @@ def groups(tier, seed):
                 for m in (None, 'dfs'):
                     cs.append({'roots': [['sub:' + n, a, b, m] for n, (a, b) in zip(names, ws)]})
     yield {'tree': pre, 'layer': 'prefix-named-roots', 'cases': cs}
+    # `unless symlinks is given`: a link to a directory outside the root, whose path is a textual prefix of the root's, is descended
+    for mode in (None, 'bfs', 'dfs'):
+        for spelling in ('rel', 'abs'):
+            yield {'kind': 'symdir', 'mode': mode, 'spelling': spelling, 'layer': 'symlinks-option'}
     # the root "/" explored inside a chroot jail
     for sh in core.tree_shapes(3 if tier == 'quick' else 4):
         tree = core.shape_to_tree(sh)
@@ -182,6 +186,8 @@ def groups(tier, seed):
 
 
 def single(case):
+    if case.get('kind') == 'symdir':
+        return {k: case[k] for k in ('kind', 'mode', 'spelling', 'layer')}
     return {'tree': case['tree'], 'cases': [{k: v for k, v in case.items() if k != 'tree'}],
             'jail': case.get('jail', False)}
 
@@ -255,7 +261,41 @@ def scale_tree(name):
     return t
 
 
+def eval_symdir(env, group):
+    holder = env.newdir('gs')
+    core.materialise(holder, {'store': D({'old': F(1), 'sub': D({'deep': F(1)})}), 'store2': D({'new': F(1), 'prev': L('../store'), 'd': D({'x': F(1)})}),
+                              'sto': D({'never': F(1)})})
+    root = 'store2' if group['spelling'] == 'rel' else os.path.join(holder, 'store2')
+    outs = []
+    try:
+        for sym in (True, False):
+            argv = ['path', 'from', root] + (['symlinks'] if sym else []) + ([group['mode']] if group['mode'] else []) + ['into', 'list']
+            o = env.run(argv, cwd=holder)
+            s2, st = os.path.join(holder, 'store2'), os.path.join(holder, 'store')
+            exp = [(s2, 'new'), (s2, 'prev'), (s2, 'd'), (os.path.join(s2, 'd'), 'x')]
+            if sym:
+                exp += [(st, 'old'), (st, 'sub'), (os.path.join(st, 'sub'), 'deep')]
+            got = []
+            for p_ in o.rows():
+                ap = os.path.normpath(os.path.join(holder, p_))
+                got.append((os.path.realpath(os.path.dirname(ap)), os.path.basename(ap)))
+            r = {'case': dict(group, sym=sym, argv=argv), 'layer': 'symlinks-option', 'nt': sym, 'trans': len(exp) + 1}
+            if o.rc != 0 or o.err or sorted(got) != sorted(exp):
+                rel = lambda x: os.path.relpath(os.path.join(*x), holder)
+                r.update(status='viol', cls='rows-behind-link' if sym else 'link-descended-without-option', sig=('symdir', sym),
+                         detail={'argv': argv, 'missing': sorted(rel(x) for x in exp if x not in got), 'extra': sorted(rel(x) for x in got if x not in exp),
+                                 'err': o.brief()['err']})
+            else:
+                r.update(status='ok', sig=tuple(sorted(got)))
+            outs.append(r)
+    finally:
+        env.rmtree(holder)
+    return outs
+
+
 def eval_group(env, group, tier):
+    if group.get('kind') == 'symdir':
+        return eval_symdir(env, group)
     tree = group['tree']
     if isinstance(tree, str):
         tree = scale_tree(tree)
